@@ -76,4 +76,44 @@ CLAIMS = {
   "note": TB + "Transport modelled as a reliable byte stream whose Read returns 1..len bytes (a zero-length read is end-of-stream to go9p). "
           "Replies sent before a malformed frame ends the connection are timing-dependent and not compared.",
  },
+ "C14": {
+  "technique": "Lean 4 proof (Readn/Written loops, iounit clamping, offsets; for all file contents, lengths, offsets, counts, iounits) + OS-oracle correspondence on real files",
+  "text": "read_exact, readn_exact (Readn returns exactly (file.drop off).take n for every file, offset, n and iounit>=1, also across EOF, and "
+          "terminates), written_pieces (Written sends consecutive pieces of at most iounit bytes covering the data exactly once, in order), "
+          "read_le_count. Correspondence: real client and Ufs over files of boundary lengths, msize 128..64K, both dialects, random operation "
+          "sequences; oracle os.ReadFile; Readn result lengths compared with the Lean loop.",
+  "note": TB + "Partial by nature: what the operating system does (Lstat, ReadAt/WriteAt, Readdir, the mutating calls) is assumed, written down in the model and exercised by the OS-oracle correspondence; what go9p computes around those calls is proved. ",
+ },
+ "C15": {
+  "technique": "Lean 4 proof (directory-window specification over any strictly increasing list of entry ends; exactly-once listing by induction; no-trap for arbitrary offsets) + correspondence on real directories",
+  "text": "window_whole_records (at every allowed offset the reply is a maximal run of whole entries of at most count bytes, empty only at the "
+          "end, else the 'too small' error), window_too_small, dirwindow_no_panic (any offset, any count: never a slice out of range), "
+          "readall_from / readall_each_once (following the offset rule with a count that fits every entry returns every entry exactly once "
+          "then an empty reply; restart at 0 lists again). sort.SearchInts is mirrored as first-index->= and its properties are proved. "
+          "Correspondence: thousands of (offset,count) probes on real directories vs the Lean window; listing vs os.ReadDir; Readdir(0).",
+  "note": TB + "Partial by nature: what the operating system does (Lstat, ReadAt/WriteAt, Readdir, the mutating calls) is assumed, written down in the model and exercised by the OS-oracle correspondence; what go9p computes around those calls is proved. ",
+ },
+ "C16": {
+  "technique": "Lean 4 proof (walk prefix / commit-only-complete / FWalk 16-cut independence over an arbitrary tree given as a lookup function) + os.Lstat-oracle correspondence on random trees",
+  "text": "walk_prefix (one qid per existing leading element, next one missing), walk_commits_only_complete (error iff the first element is "
+          "missing; path committed iff all walked), fwalk_resolves (paths of any depth resolve to the same object wherever the 16-element cuts "
+          "fall) hold for every tree. Correspondence: stat of every object of random trees against os.Lstat (type bits, length, perms, mtime, "
+          "name, qid path), walks in place and to a new fid with the fids' targets checked.",
+  "note": TB + "Partial by nature: what the operating system does (Lstat, ReadAt/WriteAt, Readdir, the mutating calls) is assumed, written down in the model and exercised by the OS-oracle correspondence; what go9p computes around those calls is proved.  The qid/mode bit tables are checked against os.Lstat by the correspondence, not stated as theorems.",
+ },
+ "C17": {
+  "technique": "Lean 4 proof (open-flag table for all 256 modes, kernel-checked decide) + twin-tree correspondence against the os package",
+  "text": "omode_flags_table: for every mode byte the flags passed to open are the access mode of the low two bits plus O_TRUNC iff OTRUNC, "
+          "nothing else (decide +kernel over the whole table, compared with the real table through a verif accessor). The rest of the property "
+          "is POSIX semantics: random mutation sequences are applied through 9P to one tree and with the os package to its twin and the trees, "
+          "outcomes and (in .u) errnos compared after every step.",
+  "note": TB + "Partial by nature: what the operating system does (Lstat, ReadAt/WriteAt, Readdir, the mutating calls) is assumed, written down in the model and exercised by the OS-oracle correspondence; what go9p computes around those calls is proved.  The wstat/create plan theorems of DESIGN section 5 are not built; C17 rests mostly on the twin-tree run (labelled testing).",
+ },
+ "C18": {
+  "technique": "Lean 4 proof (lexical confinement: cleaned paths cannot climb, every accepted walk/create step keeps the root as prefix, by induction over any request sequence) + canary correspondence",
+  "text": "clean_no_dotdot, clean_idem, walk_confined / walks_confined (every path reachable by any sequence of walk elements from a confined "
+          "path is confined), dotdot_at_root_stays, create_confined, accepted_is_below_root. Correspondence: escape grammar at attach, walk, "
+          "create (incl. symlink targets) and rename against canaries next to and above the root; filepath.Clean mirror compared on a grammar.",
+  "note": TB + "Premise of the property (no symlink leaves the tree) and OS path resolution of a cleaned path are assumed. Paths are modelled as component lists.",
+ },
 }
